@@ -118,6 +118,11 @@ register(Job("C06", "plain_n4_durations", make(4, True), tier="thorough", budget
              goals=("siblings_held",),
              doc={**D, "symbolic": ["binding selectors", "hold depth", "modes of held nodes", "durations of all nodes below the held depth"],
                   "bounds": "n = 4"}))
+register(Job("C06", "plain_n6_async", make(6, False, False), tier="thorough", budget_s=2400,
+             parts=[{"bind2_0": a, "bind3_0": b, "bind4_0": c, "bind5_0": d} for a in range(2) for b in range(3) for c in range(4) for d in range(5)],
+             goals=("siblings_held",),
+             doc={**D, "symbolic": ["binding selectors (17280 programs)", "hold depth"],
+                  "bounds": "n = 6 nodes, all coroutine nodes, durations 0"}))
 register(Job("C06", "plain_n5", make(5, False), tier="thorough", budget_s=2400,
              parts=[{"bind2_0": a, "bind3_0": b, "bind4_0": c} for a in range(2) for b in range(3) for c in range(4)],
              goals=("siblings_held", "mixed_modes_held"),
